@@ -128,6 +128,7 @@ def fault_stage(c, remote):
       for step in range(rng.randrange(3, 7)):
         w = rng.choice(workers)
         cnt = rng.choice([1, 2, 3])
+        calls_before = script['suggest_calls']
         try:
           op = sv.SuggestTrials(vsp.SuggestTrialsRequest(parent=sn, suggestion_count=cnt, client_id=w))
           status = 'error-op' if op.HasField('error') else ('done' if op.done else 'PENDING')
@@ -135,6 +136,12 @@ def fault_stage(c, remote):
         except Exception as e:  # pylint: disable=broad-except
           status, nt = 'EXC:' + type(e).__name__, 0
         calls.append([w, cnt, status, nt])
+        # the failure must be REPORTED: a call during which the algorithm raised does not answer normally
+        raised_now = any(script['plan'][k % len(script['plan'])][0] == 'raise' for k in range(calls_before, script['suggest_calls']))
+        if raised_now and status == 'done':
+          c.prop_fail('suggest-failure-not-reported',
+                      'the suggestion algorithm raised %s during this SuggestTrials call but the call answered with a successful operation (%d trials)' % (exc.__name__, nt),
+                      dict(case, calls=calls))
         c.count(1, kind='fault:' + ('remote' if remote else 'local') + ':' + status.split(':')[0])
         if status == 'PENDING':
           wedged = True
